@@ -192,9 +192,9 @@ func TestC14Rapid(t *testing.T) {
 		ctx := xgen.Context(rt, doc, 4)
 		g := xgen.NewG(rt, doc)
 		g.ElNames = []string{"a", "b", "a.b-c"}
-		config := rapid.SampledFrom([]string{"none", "none", "map", "map", "map", "missing", "empty", "nilmap"}).Draw(rt, "config")
+		config := rapid.SampledFrom([]string{"none", "none", "map", "map", "map", "missing", "empty", "nilmap", "default-entry"}).Draw(rt, "config")
 		flav := xdoc.NS
-		useMap := config == "map" || config == "missing" || config == "empty"
+		useMap := config == "map" || config == "missing" || config == "empty" || config == "default-entry"
 		if !useMap && rapid.Bool().Draw(rt, "plain") {
 			flav = xdoc.Plain
 		}
@@ -207,6 +207,17 @@ func TestC14Rapid(t *testing.T) {
 			}
 			m := nsmap
 			g.Env.Match = func(t xast.NodeTest, n *xdoc.Node) bool { return n.Local == t.Local && n.NS == m[t.Prefix] }
+			if config == "default-entry" {
+				// a map with an entry for the empty prefix: XPath 1.0 has no default namespace for
+				// name tests, an unprefixed test keeps matching unprefixed nodes only
+				g.Prefixes = []string{"", "p", "q"}
+				g.Env.Match = func(t xast.NodeTest, n *xdoc.Node) bool {
+					if t.Prefix == "" {
+						return n.Local == t.Local && n.Prefix == ""
+					}
+					return n.Local == t.Local && n.NS == m[t.Prefix]
+				}
+			}
 		} else {
 			g.Prefixes = []string{"", "p", "q", "r"}
 		}
@@ -258,6 +269,12 @@ func TestC14Rapid(t *testing.T) {
 		switch config {
 		case "map":
 			used := map[string]string{}
+			for _, p := range prefixesUsed(e) {
+				used[p] = nsmap[p]
+			}
+			l.HasNS, l.NSMap = true, used
+		case "default-entry":
+			used := map[string]string{"": rapid.SampledFrom(uris).Draw(rt, "bind-default")}
 			for _, p := range prefixesUsed(e) {
 				used[p] = nsmap[p]
 			}
